@@ -30,13 +30,27 @@ struct World {
   std::map<int, std::vector<std::string> > seeds; uint64_t gate[T_COUNT], execs[T_COUNT];
 };
 static World *W = nullptr;
+// target groups: each campaign fuzzes one group; the first input byte selects the target WITHIN the group
+static std::vector<int> g_group; static std::string g_group_name = "all";
+static void set_group() {
+  const char *g = getenv("VF_GROUP"); g_group.clear(); g_group_name = g ? g : "all";
+  auto range = [&](int a, int b) { for (int i = a; i <= b; i++) g_group.push_back(i); };
+  if (g_group_name == "imp") { range(T_CARD, T_SECKEY); g_group.push_back(T_STREAM_OPS); }
+  else if (g_group_name == "ctor") range(T_CTOR_VTMF, T_CTOR_EOTP);
+  else if (g_group_name == "ver") range(T_UPDATEKEY, T_SKC_NI);
+  else if (g_group_name == "pgp") range(T_ARMOR, T_RADIX64);
+  else range(0, T_COUNT - 1);
+}
+static int group_index_of(int t) { for (size_t i = 0; i < g_group.size(); i++) if (g_group[i] == t) return (int)i; return -1; }
 
 static void add_seed(int t, const std::string &s) { W->seeds[t].push_back(s); }
 static std::string pgp_str(const tmcg_openpgp_octets_t &o) { return std::string(o.begin(), o.end()); }
 
-static void build_world() {
+static void pgp_seeds();
+static void build_world(bool heavy) {
   W = new World(); memset(W->gate, 0, sizeof W->gate); memset(W->execs, 0, sizeof W->execs);
   rng_seed(20260924);
+  if (!heavy) { W->gtext = vtmf_group_text(G_SCHNORR, 384, 128, 0); W->qrtext = vtmf_group_text(G_QR, 256, 128, 0); pgp_seeds(); return; }
   GroupSpec g{G_SCHNORR, 384, 128, 0}; W->gtext = vtmf_group_text(g.kind, g.fsize, g.gsize, g.idx); W->qrtext = vtmf_group_text(G_QR, 256, 128, 0);
   W->P = new VtmfPlayers(g, 2); W->pv = (*W->P)[1]; W->vv = (*W->P)[0]; W->T = new SchindelhauerTMCG(2, 2, 4);
   BarnettSmartVTMF_dlog *pv = W->pv; Z p(pv->p), q(pv->q), gz(pv->g);
@@ -83,6 +97,9 @@ static void build_world() {
     CanettiGennaroJareckiKrawczykRabinRVSS r(3, 1, 0, 1, pv->p, pv->q, pv->g, pv->h, 384, 128, false, false, "x"); std::ostringstream o3; r.PublishState(o3); add_seed(T_CTOR_CGJKR, "\x00" + o3.str());
     CanettiGennaroJareckiKrawczykRabinDKG dk(3, 1, 0, pv->p, pv->q, pv->g, pv->h, 384, 128, false, false); std::ostringstream o4; dk.PublishState(o4); add_seed(T_CTOR_CGJKR, "\x02" + o4.str());
     CanettiGennaroJareckiKrawczykRabinDSS ds(3, 1, 0, pv->p, pv->q, pv->g, pv->h, 384, 128, false, false); std::ostringstream o5; ds.PublishState(o5); add_seed(T_CTOR_CGJKR, "\x03" + o5.str()); }
+  pgp_seeds();
+}
+static void pgp_seeds() {
   // OpenPGP seeds built with the library's own encoders
   { tmcg_openpgp_octets_t uid, lit, pub, all, seipd; PGP::PacketUidEncode("Alice <a@example.invalid>", uid); tmcg_openpgp_octets_t data = {'h', 'e', 'l', 'l', 'o'}; PGP::PacketLitEncode(data, lit);
     gcry_mpi_t a = gcry_mpi_set_ui(NULL, 65537), n = NULL; { std::string hx(256, 'c'); gcry_mpi_scan(&n, GCRYMPI_FMT_HEX, hx.c_str(), 0, NULL); }
@@ -112,14 +129,14 @@ static void run_target(int t, const std::string &in) {
     case T_PUBKEY: guarded([&] { size_t z = in.find('\0'); std::string k = in.substr(0, z), sig = z == std::string::npos ? "" : in.substr(z + 1); TMCG_PublicKey pk; if (pk.import(k)) { gate(t); pk.verify("data", sig); pk.fingerprint(); pk.selfid(); if (pk.nizk.size() < 2000) pk.check(); } W->pk->verify("data", sig); }); break;
     case T_SECKEY: guarded([&] { size_t z = in.find('\0'); std::string k = in.substr(0, z), enc = z == std::string::npos ? "" : in.substr(z + 1); unsigned char out[TMCG_SAEP_S0 + 8]; W->sk->decrypt(out, enc); W->sk->decrypt(out, k);
         if (k.size() < 20000) { TMCG_SecretKey sk; if (sk.import(k)) { gate(t); if (mpz_sizeinbase(sk.m, 2) < 1200 && mpz_sizeinbase(sk.m, 2) >= 672 && mpz_sizeinbase(sk.m, 2) % 8 == 0) { sk.decrypt(out, enc); } } } }); break;
-    case T_CTOR_VTMF: guarded([&] { std::istringstream is(in); BarnettSmartVTMF_dlog v(is, 384, 128, false); if (v.CheckGroup()) gate(t); v.CheckElement(v.g); std::ostringstream o; v.PublishGroup(o); }); break;
-    case T_CTOR_QR: guarded([&] { std::istringstream is(in); BarnettSmartVTMF_dlog_GroupQR v(is, 256, 128); if (v.CheckGroup()) gate(t); v.CheckElement(v.g); }); break;
+    case T_CTOR_VTMF: guarded([&] { std::istringstream is(in); BarnettSmartVTMF_dlog v(is, 384, 128, false); if (v.CheckGroup()) { gate(t); v.CheckElement(v.g); } std::ostringstream o; v.PublishGroup(o); }); // an object whose group check fails is not used any further break;
+    case T_CTOR_QR: guarded([&] { std::istringstream is(in); BarnettSmartVTMF_dlog_GroupQR v(is, 256, 128); if (v.CheckGroup()) { gate(t); v.CheckElement(v.g); } }); break;
     case T_CTOR_COM: guarded([&] { if (in.empty()) return; size_t n = 1 + (unsigned char)in[0] % 8; std::istringstream is(in.substr(1)); PedersenCommitmentScheme c(n, is, 384, 128); if (c.CheckGroup()) gate(t); }); break;
     case T_CTOR_SKC: guarded([&] { if (in.empty()) return; size_t n = 1 + (unsigned char)in[0] % 8; std::istringstream is(in.substr(1)); GrothSKC c(n, is, 32, 384, 128); if (c.CheckGroup()) gate(t); }); break;
     case T_CTOR_VSSHE: guarded([&] { if (in.empty()) return; size_t n = 1 + (unsigned char)in[0] % 8; std::istringstream is(in.substr(1)); GrothVSSHE c(n, is, 32, 384, 128); if (c.CheckGroup()) gate(t); }); break;
-    case T_CTOR_VRHE: guarded([&] { std::istringstream is(in); HooghSchoenmakersSkoricVillegasVRHE c(is, 384, 128); if (c.CheckGroup()) gate(t); c.CheckElement(c.g); }); break;
+    case T_CTOR_VRHE: guarded([&] { std::istringstream is(in); HooghSchoenmakersSkoricVillegasVRHE c(is, 384, 128); if (c.CheckGroup()) { gate(t); c.CheckElement(c.g); } }); break;
     case T_CTOR_PVSS: guarded([&] { std::istringstream is(in); PedersenVSS c(is, 384, 128, false); if (c.CheckGroup()) gate(t); std::ostringstream o; c.PublishState(o); }); break;
-    case T_CTOR_GJKR: guarded([&] { std::istringstream is(in); GennaroJareckiKrawczykRabinDKG c(is, 384, 128, false, false); if (c.CheckGroup()) gate(t); std::ostringstream o; c.PublishState(o); c.CheckKey(); }); break;
+    case T_CTOR_GJKR: guarded([&] { std::istringstream is(in); GennaroJareckiKrawczykRabinDKG c(is, 384, 128, false, false); std::ostringstream o; c.PublishState(o); if (c.CheckGroup()) { gate(t); c.CheckKey(); } }); break;
     case T_CTOR_CGJKR: guarded([&] { if (in.empty()) return; int k = (unsigned char)in[0] % 4; std::istringstream is(in.substr(1));
         if (k == 0) { CanettiGennaroJareckiKrawczykRabinRVSS c(is, 384, 128, false, false, "x"); if (c.CheckGroup()) gate(t); std::ostringstream o; c.PublishState(o); }
         else if (k == 1) { CanettiGennaroJareckiKrawczykRabinZVSS c(is, 384, 128, false, false, "x"); if (c.CheckGroup()) gate(t); std::ostringstream o; c.PublishState(o); }
@@ -164,16 +181,19 @@ namespace tmcg_init { bool init(); }
 extern "C" int LLVMFuzzerInitialize(int *, char ***) {
   static NullBuf nb; if (!getenv("VF_VERBOSE")) { std::cerr.rdbuf(&nb); std::cout.rdbuf(&nb); }
   if (!tmcg_init::init()) { fprintf(stderr, "init_libTMCG failed\n"); _exit(2); }
-  build_world();
-  if (const char *d = getenv("VF_GEN_CORPUS")) { // write the seed corpus (valid artefacts made by the library itself) and leave
-    size_t n = 0; for (auto &kv : W->seeds) for (auto &s : kv.second) { char name[512]; snprintf(name, sizeof name, "%s/seed-%s-%zu", d, TNAME[kv.first], n++); FILE *o = fopen(name, "wb"); if (!o) continue; fputc(kv.first, o); fwrite(s.data(), 1, s.size(), o); fclose(o); }
-    for (int t = 0; t < T_COUNT; t++) { char name[512]; snprintf(name, sizeof name, "%s/empty-%s", d, TNAME[t]); FILE *o = fopen(name, "wb"); if (o) { fputc(t, o); fclose(o); } }
-    fprintf(stdout, "wrote %zu seeds\n", n); _exit(0); }
+  set_group();
+  // the OpenPGP and constructor groups need no protocol world; building it in every forked fuzz job would dominate the campaign
+  if (getenv("VF_PRINT_GROUP")) { for (size_t gi = 0; gi < g_group.size(); gi++) fprintf(stdout, "%zu %s\n", gi, TNAME[g_group[gi]]); fflush(stdout); _exit(0); }
+  build_world(getenv("VF_GEN_CORPUS") != nullptr || (g_group_name != "pgp" && g_group_name != "ctor"));
+  if (const char *d = getenv("VF_GEN_CORPUS")) { // write the seed corpus of this group (valid artefacts made by the library itself) and leave
+    size_t n = 0; for (auto &kv : W->seeds) { int gi = group_index_of(kv.first); if (gi < 0) continue; for (auto &s : kv.second) { char name[512]; snprintf(name, sizeof name, "%s/seed-%s-%zu", d, TNAME[kv.first], n++); FILE *o = fopen(name, "wb"); if (!o) continue; fputc(gi, o); fwrite(s.data(), 1, s.size(), o); fclose(o); } }
+    for (size_t gi = 0; gi < g_group.size(); gi++) { char name[512]; snprintf(name, sizeof name, "%s/empty-%s", d, TNAME[g_group[gi]]); FILE *o = fopen(name, "wb"); if (o) { fputc((int)gi, o); fclose(o); } }
+    fprintf(stdout, "wrote %zu seeds\n", n); fflush(stdout); _exit(0); }
   atexit(dump_stats);
   return 0;
 }
 extern "C" int LLVMFuzzerTestOneInput(const uint8_t *data, size_t size) {
-  if (size < 1) return 0; int t = data[0] % T_COUNT; if (const char *only = getenv("VF_ONLY_TARGET")) { if (strcmp(only, TNAME[t])) return 0; }
+  if (size < 1) return 0; int t = g_group[data[0] % g_group.size()];
   PGP::MemoryGuardReset(); rng_seed(4711); rng_script_clear(); set_vnow(0); stdexc = false;
   W->execs[t]++;
   std::string in((const char *)data + 1, size - 1);
